@@ -1,6 +1,7 @@
 package main
 
 import (
+	"sync/atomic"
 	"bufio"
 	"bytes"
 	"context"
@@ -755,6 +756,18 @@ func dkgEngine(workdir string) {
 			} else {
 				res = fmt.Sprintf("shape:%d:%d", len(rs), len(sigs))
 			}
+		case "iatts2":
+			// iatts2 <inst> <account> <att> <account2> <att2>: a batch of two (the second entry belongs to another
+			// account); result "<state of the second>/<state[:signature] of the first>"
+			in := c.insts[u64(f[1])]
+			rs, sigs := in.signer.SignBeaconAttestations(context.Background(), &checker.Credentials{Client: "client1", RequestID: "r"},
+				[]string{unhexStr(f[2]), unhexStr(f[4])}, [][]byte{nil, nil},
+				[]*rules.SignBeaconAttestationData{parseAtt(strings.Split(f[3], ",")), parseAtt(strings.Split(f[5], ","))})
+			if len(rs) == 2 && len(sigs) == 2 {
+				res = coreStr(rs[1]) + "/" + posStr(rs[0], sigs[0])
+			} else {
+				res = fmt.Sprintf("shape:%d:%d", len(rs), len(sigs))
+			}
 		case "iprop":
 			in := c.insts[u64(f[1])]
 			r, sig := in.signer.SignBeaconProposal(context.Background(), &checker.Credentials{Client: "client1", RequestID: "r"},
@@ -780,6 +793,28 @@ func dkgEngine(workdir string) {
 			req := &pb.PrepareRequest{Account: unhexStr(f[3]), Threshold: uint32(u64(f[4])), Participants: c.endpoints(parseIDs(f[5])), Passphrase: []byte("pass")}
 			_, err := in.handler.Prepare(callerCtx(hs(f[2])), wire(req, &pb.PrepareRequest{}))
 			res = errClassH(err)
+		case "cprepare":
+			// cprepare <inst> <caller> <account> <k> <t> <parts>: k Prepare messages for one name issued at the same moment;
+			// result: how many were accepted
+			in := c.insts[u64(f[1])]
+			k, _ := strconv.Atoi(f[4])
+			start := make(chan struct{})
+			var wg sync.WaitGroup
+			var okN int64
+			for g := 0; g < k; g++ {
+				wg.Add(1)
+				go func() {
+					defer wg.Done()
+					req := &pb.PrepareRequest{Account: unhexStr(f[3]), Threshold: uint32(u64(f[5])), Participants: c.endpoints(parseIDs(f[6])), Passphrase: []byte("pass")}
+					<-start
+					if _, err := in.handler.Prepare(callerCtx(hs(f[2])), wire(req, &pb.PrepareRequest{})); err == nil {
+						atomic.AddInt64(&okN, 1)
+					}
+				}()
+			}
+			close(start)
+			wg.Wait()
+			res = fmt.Sprintf("ok=%d", okN)
 		case "hexecute":
 			in := c.insts[u64(f[1])]
 			_, err := in.handler.Execute(callerCtx(hs(f[2])), wire(&pb.ExecuteRequest{Account: unhexStr(f[3])}, &pb.ExecuteRequest{}))
